@@ -299,13 +299,13 @@ func (g *G) IPv6Packet(maxData int) (*protocol.IPv6, []byte, string) {
 }
 
 func (g *G) ARPPacket() (*protocol.ARP, []byte) {
-	op := protocol.Type_Request
+	op := 1 // RFC 826: ares_op$REQUEST = 1, ares_op$REPLY = 2 (the numbers, not the library's names for them)
 	if g.Bool("arp_reply") {
-		op = protocol.Type_Reply
+		op = 2
 	}
 	a, err := protocol.NewARP(op)
 	if err != nil {
-		panic(err)
+		panic(Refused{fmt.Sprintf("protocol.NewARP(%d): %v", op, err)})
 	}
 	sha, tha := g.MAC("arp_sha"), g.MAC("arp_tha")
 	spa, spw := g.IPv4("arp_spa")
